@@ -66,7 +66,7 @@ CLAIMED["C13"] = dict(category=_MC,
          "satisfied/errored/false policies have that outcome; reauthorize(c) = authorize(c)). TLC generates ~23500 policy sets whose conditions mix known atoms of every error "
          "class with atoms over unknown principal/resource/context-attribute/entity-attribute values in 6 unknown modes, with the complete completion set of each mode; the real "
          "is_authorized_partial, reauthorize_with_bindings and is_authorized are run and TLC re-derives the reference answer for every completion.",
-    note="bounded by the atom pools, 6 modes and the completion domains of MC_Partial.tla; partial entity stores and an unknown action are not generated. Residual shapes are never compared.")
+    note="bounded by the atom pools, 6 modes and the completion domains of MC_Partial.tla; partial entity stores are covered by MC_PartialStore (one of three entities missing from a store marked partial, 18 atoms about the missing entity, its possible records or absence as completions); an unknown action is not generated. Residual shapes are never compared.")
 ENGINES[0]["serves_properties"].append("C14")
 CLAIMED["C14"] = dict(category=_MC,
     text="TPE is specified by its soundness relation over consistent completions (Trace_Tpe.tla over TypedWorld.tla): definite decision and true/false/error classes hold on every "
